@@ -12,6 +12,7 @@ import (
 	"os"
 	"runtime"
 	"runtime/debug"
+	"strconv"
 	"strings"
 	"sync"
 	"sync/atomic"
@@ -21,6 +22,7 @@ import (
 	"github.com/bluenviron/gohlslib/v2/pkg/codecs"
 	"github.com/bluenviron/gohlslib/v2/pkg/storage"
 	"github.com/bluenviron/mediacommon/v2/pkg/codecs/mpeg4audio"
+	"github.com/bluenviron/mediacommon/v2/pkg/formats/fmp4"
 
 	"verifharness/internal/rng"
 )
@@ -404,6 +406,40 @@ func (rd *reader) get(uri string) (int, string, string) {
 	return w.Code, w.Header().Get("Content-Type"), w.Body.String()
 }
 
+// checkPartBody: whatever is served with 200 under the URI of part N - listed part or preload hint - is part N:
+// exactly one fragment whose sequence number is N (round 10: C08-m14, the shared preload-hint handler takes the
+// hinted part to be nextPartID at the moment it gets the muxer mutex, so a hint request that was looked up while
+// the writer was completing its part returns the FOLLOWING part under the hinted URI).
+func (rd *reader) checkPartBody(uri string, code int, body string, what string) {
+	if code != 200 || body == "" {
+		return
+	}
+	path := uri
+	if i := strings.IndexByte(path, '?'); i >= 0 {
+		path = path[:i]
+	}
+	i := strings.LastIndex(path, "_part")
+	if i < 0 || !strings.HasSuffix(path, ".mp4") {
+		return
+	}
+	n, err := strconv.ParseUint(path[i+len("_part"):len(path)-len(".mp4")], 10, 64)
+	if err != nil {
+		return
+	}
+	var ps fmp4.Parts
+	if err := ps.Unmarshal([]byte(body)); err != nil {
+		rd.violate([]violation{{"C08:snapshot:" + what + "-body-undecodable", fmt.Sprintf("GET %s: 200 with a body that is no fMP4 fragment: %v", uri, err)}}, "GET "+uri)
+		return
+	}
+	if len(ps) != 1 || uint64(ps[0].SequenceNumber) != n {
+		got := []uint32{}
+		for _, p := range ps {
+			got = append(got, p.SequenceNumber)
+		}
+		rd.violate([]violation{{"C08:snapshot:" + what + "-uri-serves-another-part", fmt.Sprintf("GET %s (part %d) returned fragment(s) with sequence number(s) %v", uri, n, got)}}, "GET "+uri)
+	}
+}
+
 func (rd *reader) count(kind string, code int) {
 	rd.req[fmt.Sprintf("%s:%d", kind, code)]++
 }
@@ -537,14 +573,17 @@ func (rd *reader) step() {
 			}
 			all = append(all, p.OpenParts...)
 			if len(all) > 0 {
-				code, _, _ := rd.get(all[r.Intn(len(all))].URI)
+				u := all[r.Intn(len(all))].URI
+				code, _, body := rd.get(u)
 				rd.count("part", code)
+				rd.checkPartBody(u, code, body, "part")
 			}
 		}
 	case 7: // preload hint (blocks until the part is complete)
 		if p := rd.last[sid]; p != nil && p.PreloadHint != "" {
-			code, _, _ := rd.get(p.PreloadHint)
+			code, _, body := rd.get(p.PreloadHint)
 			rd.count("preload-hint", code)
+			rd.checkPartBody(p.PreloadHint, code, body, "preload-hint")
 		}
 	case 8: // unknown
 		u := "nope.mp4"
